@@ -132,7 +132,14 @@ def outcomes(F, q, probes=None):
         return None, None
     an = analyze_fn(F, fn)
     out = []
-    for v, st in ok_outcomes(an):
+    ps = an.paths() if not an.loops else None
+    if ps is not None:
+        # per acyclic path: a value merged from the two classes (`tail_size = match class {..}`) is the constant of its path
+        outs = [((t.args[4][0] if (t.op == "agg" and t.args[3] == "Ok") else T.payload(t, "Ok")), st) for t, st, _ in ps
+                if not (t.op == "agg" and t.args[3] == "Err")]
+    else:
+        outs = ok_outcomes(an)
+    for v, st in outs:
         c = canon(F, norm(v))
         if probes:
             # guard signature: truth of each probe predicate on the path of this outcome
